@@ -700,6 +700,20 @@ def _w_frozen(sd):
         prod = S.T0(x=holder)
     if rng.random() < 0.5:
         prod.add_pretasks(pre)
+    if rng.random() < 0.4:
+        # a first attempt to turn the holder into objects fails in the middle of the graph (a path generator raises):
+        # nothing of that attempt may count as sealed when the task is submitted afterwards
+        gf = S.GF(z=S.K(a=31))
+        holder.g = gf
+        thelist.append(S.K(a=32))
+        holder.l = thelist
+        S.FAIL_GEN.append(1)
+        try:
+            holder.instance()
+            problems.append("the failing generator did not fail")
+        except Exception:
+            pass
+        S.FAIL_GEN.clear()
     out = prod.submit()
     cons = S.T0(x=S.G(z=out), n=5)
     before_ids = None
@@ -710,6 +724,13 @@ def _w_frozen(sd):
     inits = [cinit] if both or rng.random() < 0.5 else []
     consout = cons.submit(init_tasks=inits)
     everything = {"prod": prod, "holder": holder, "inner": inner, "out": out, "cons": cons, "wrap": cons.x}
+    for i, x in enumerate(holder.l):
+        everything[f"holder.l{i}"] = x
+    if holder.g is not None:
+        everything["holder.g"] = holder.g
+        everything["holder.g.z"] = holder.g.z
+        if holder.g.__xpm__.values.get("p") is None:
+            problems.append("a generated path of a configuration reachable from the submitted task was never generated")
     for i, t in enumerate(cons.__xpm__.pre_tasks):
         everything[f"cons.pre{i}"] = t
         everything[f"cons.pre{i}.c"] = t.c
@@ -726,6 +747,9 @@ def _w_frozen(sd):
         for what, fn in (
             ("assign a parameter", lambda o=o: setattr(o, *next((a, (None if a == "z" else 1)) for a in ("a", "n", "k", "z") if a in o.__xpmtype__.arguments))),
             ("change the meta flag", lambda o=o: setmeta(o, True)),
+            ("set the meta flag to False", lambda o=o: setmeta(o, False)),
+            ("reset an optional parameter to None", lambda o=o: setattr(o, next(a for a in ("c", "x", "z", "o") if a in o.__xpmtype__.arguments and not o.__xpmtype__.arguments[a].required), None)
+             if any(a in o.__xpmtype__.arguments and not o.__xpmtype__.arguments[a].required for a in ("c", "x", "z", "o")) else (_ for _ in ()).throw(SealedError("no optional parameter"))),
             ("add a pre-task", lambda o=o: o.add_pretasks(S.LW(k=99))),
             ("copy the pre-tasks of another configuration", lambda o=o: o.add_pretasks_from(S.K(a=1).add_pretasks(S.LW(k=98)))),
         ):
@@ -736,10 +760,11 @@ def _w_frozen(sd):
                 pass
     # the containers handed to the constructor still belong to the caller: changing them afterwards changes nothing
     npre = {k: len(v.__xpm__.pre_tasks) for k, v in everything.items()}
+    nlist = len(holder.l)
     thelist.append(S.K(a=99))
     thelist[0] = S.K(a=98)
     thedict["z"] = S.K2(a=97)
-    if len(holder.l) != 2 or holder.l[0] is not inner or sorted(holder.d) != ["k"]:
+    if len(holder.l) != nlist or holder.l[0] is not inner or sorted(holder.d) != ["k"]:
         problems.append("a list / dict given to a parameter is shared with the caller: changing it after submission changes the submitted task")
     for k, v in everything.items():
         if len(v.__xpm__.pre_tasks) != npre[k]:
@@ -816,7 +841,7 @@ def _w_resubmit(args):
                 except ValueError:
                     gen[name] = "OUTSIDE:" + str(v)
         for n, o in objs.items():
-            a = {"K": "p", "K2": "q", "K2Old": "q", "K2Older": "q", "G": "p"}.get(graph[n]["cls"])
+            a = {"K": "p", "K2": "q", "K2Old": "q", "K2Older": "q", "G": "p", "GF": "p"}.get(graph[n]["cls"])
             if a and o.__xpm__._sealed:
                 v = Path(o.__xpm__.values[a])
                 try:
@@ -828,7 +853,7 @@ def _w_resubmit(args):
 
 
 def resubmit_paths(rep, n, sd, prop="C17"):
-    gs = [g for g in graphs(n * 3, sd + 9) if all(x["cls"] in ("K", "K2", "K2Old", "K2Older", "V", "G", "PX", "QX", "N", "DH") and not x["pre"] for x in g.values())
+    gs = [g for g in graphs(n * 3, sd + 9) if all(x["cls"] in ("K", "K2", "K2Old", "K2Older", "V", "G", "GF", "PX", "QX", "N", "DH") and not x["pre"] for x in g.values())
           and _acyclic(g)][:n]
     with pool() as ex:
         out = list(ex.map(_w_resubmit_safe, [(g, sd) for g in gs], chunksize=5))
